@@ -547,7 +547,49 @@ pub fn gen_program(rng: &mut Rng, opts: &GenOpts) -> Module {
 pub fn gen_malformed(rng: &mut Rng) -> Module {
     let mut m = gen_program(rng, &GenOpts { size: 2, with_submodules: true });
     let body = |cards: Vec<Card>| Function { arguments: vec![], cards };
-    match rng.below(16) {
+    match rng.below(22) {
+        16..=21 => {
+            // a defect deep in the tree: below a chain of 0-3 single-child modules hanging off a
+            // random module, a module with one of the module-level defects
+            let mut bad = Module::default();
+            bad.functions.push(("ok".into(), body(vec![int(1)])));
+            match rng.below(6) {
+                0 => {
+                    bad.submodules.push(("c".into(), Module { functions: vec![("f1".into(), body(vec![]))], ..Default::default() }));
+                    bad.submodules.push(("c".into(), Module { functions: vec![("f2".into(), body(vec![]))], ..Default::default() }));
+                }
+                1 => bad.functions.push(("ok".into(), body(vec![int(2)]))),
+                2 => bad.functions.push((rng.pick(&["", "a b", "super", "x.y"]).to_string(), body(vec![]))),
+                3 => bad.submodules.push((rng.pick(&["", "a b", "super", "x.y"]).to_string(), Module::default())),
+                4 => bad.imports.push("nodots".into()),
+                _ => {
+                    bad.imports.push("a.same".into());
+                    bad.imports.push("b.same".into());
+                }
+            }
+            let mut node = bad;
+            for d in 0..rng.range(0, 3) {
+                let mut parent = Module::default();
+                if rng.chance(1, 3) {
+                    parent.submodules.push((format!("sib{d}"), Module::default()));
+                }
+                parent.submodules.push((format!("d{d}"), node));
+                node = parent;
+            }
+            // attach below a random module of the generated tree
+            fn modules_mut<'a>(m: &'a mut Module, out: &mut Vec<*mut Module>) {
+                out.push(m as *mut Module);
+                for (_, s) in m.submodules.iter_mut() {
+                    modules_mut(s, out);
+                }
+            }
+            let mut all = vec![];
+            modules_mut(&mut m, &mut all);
+            let target = *rng.pick(&all);
+            // SAFETY: the pointers come from one exclusive traversal of `m`, which is not touched
+            // in between; exactly one of them is dereferenced
+            unsafe { (*target).submodules.push(("deep".into(), node)) };
+        }
         0 => m.functions.push(("bad name".into(), body(vec![]))),
         1 => m.functions.push(("".into(), body(vec![]))),
         2 => m.functions.push(("super".into(), body(vec![]))),
